@@ -37,9 +37,9 @@ var c14Sizes = []int{0, 1, 61, 122, 6100, 67100, 4095, 4096, 65535, 65536, 65537
 
 func c14Gen(t *rapid.T) c14Case {
 	c := c14Case{Via: rapid.SampledFrom([]string{"runcommand", "runcommand", "intotorun"}).Draw(t, "via"),
-		WorkDir: rapid.SampledFrom([]string{"", "", "sub"}).Draw(t, "workdir"), DSSE: rapid.Bool().Draw(t, "dsse")}
+		WorkDir: rapid.SampledFrom([]string{"", "", "sub", "behind-symlink"}).Draw(t, "workdir"), DSSE: rapid.Bool().Draw(t, "dsse")}
 	if rapid.IntRange(0, 9).Draw(t, "broken") == 0 {
-		c.Broken = rapid.SampledFrom([]string{"missing-executable", "empty-argv", "not-executable", "directory", "missing-rundir", "rundir-is-file"}).Draw(t, "brokenkind")
+		c.Broken = rapid.SampledFrom([]string{"missing-executable", "empty-argv", "not-executable", "directory", "missing-rundir", "rundir-is-file", "busy-executable"}).Draw(t, "brokenkind")
 		return c
 	}
 	n := rapid.IntRange(0, 5).Draw(t, "nops")
@@ -65,7 +65,7 @@ func c14Gen(t *rapid.T) c14Case {
 			c.Ops = append(c.Ops, kind+":"+strconv.Itoa(size))
 		}
 	}
-	c.RelCmd = c.WorkDir != "" && rapid.Bool().Draw(t, "relcmd")
+	c.RelCmd = c.WorkDir == "sub" && rapid.Bool().Draw(t, "relcmd")
 	if rapid.IntRange(0, 4).Draw(t, "prelude") == 0 {
 		// the process ran another command before: a big one (its buffers are gone when this one starts)
 		c.Prelude = []string{rapid.SampledFrom([]string{"o", "e", "O"}).Draw(t, "preludestream") + ":" + strconv.Itoa(rapid.SampledFrom([]int{1 << 20, 1200000, 2 << 20, 70000}).Draw(t, "preludesize")), "e:100", "x:3"}
@@ -194,10 +194,31 @@ func c14Run(c c14Case, r *hx.Rec) error {
 	case "missing-rundir", "rundir-is-file":
 		// a fine command, but the directory to run it in does not exist / is a file
 		args = []string{emit, "o:10", "x:0"}
+	case "busy-executable":
+		// the program is still being written by somebody (open for writing): it cannot be started
+		busy := filepath.Join(dir, "still-being-written")
+		data, _ := os.ReadFile(emit)
+		_ = os.WriteFile(busy, data, 0o755)
+		if fh, err := os.OpenFile(busy, os.O_WRONLY, 0); err == nil {
+			defer fh.Close()
+		}
+		args = []string{busy, "o:10", "x:0"}
 	}
 	runDir := ""
 	if c.WorkDir != "" {
 		runDir = filepath.Join(dir, c.WorkDir)
+	}
+	markerDir := ""
+	if c.WorkDir == "behind-symlink" && c.Broken == "" {
+		// outer/link -> ../real/deep ; the run directory is spelled outer/link/.. , which is real/ (not outer/)
+		_ = os.MkdirAll(filepath.Join(dir, "real", "deep"), 0o755)
+		_ = os.MkdirAll(filepath.Join(dir, "outer"), 0o755)
+		_ = os.Symlink("../real/deep", filepath.Join(dir, "outer", "link"))
+		runDir = dir + "/outer/link/.." // (no filepath.Join: it would clean the path lexically)
+		markerDir = filepath.Join(dir, "real")
+		args = append([]string{args[0], "w:ran-here.marker:x"}, args[1:]...)
+	} else if c.WorkDir == "behind-symlink" {
+		runDir = filepath.Join(dir, "sub")
 	}
 	switch c.Broken {
 	case "missing-rundir":
@@ -285,6 +306,12 @@ func c14Run(c c14Case, r *hx.Rec) error {
 	}
 	if resp.Err != "" {
 		return fmt.Errorf("%s failed for a command that starts and terminates: %s (script %v %s)", c.Via, resp.Err, c.Ops, c.End)
+	}
+	if markerDir != "" {
+		r.Label("run-directory-behind-symlink")
+		if _, err := os.Stat(filepath.Join(markerDir, "ran-here.marker")); err != nil {
+			return fmt.Errorf("the command did not run in the requested directory %q (= %s): its marker file is not there (%v)", runDir, markerDir, err)
+		}
 	}
 	if c.Linger > 0 {
 		// a background process keeps the streams for a while: what is asserted is the exact exit
